@@ -26,13 +26,22 @@
 (* text of a numeric escape), then unicode-escape decoding (PipeUnits).     *)
 (* TLC checks that both give the same value wherever Python defines one     *)
 (* (C14_PipelineIsPythonDecoding) and that adjacent literals concatenate    *)
-(* (C14_AdjacentConcat).                                                    *)
+(* (C14_AdjacentConcat).  The pipeline starts with Lexer.wrap's             *)
+(* _normalize_newlines: a RAW line break inside the quotes is replaced by   *)
+(* the environment's newline_sequence (NewlineSeqs: "n" = \n, "rn" = \r\n,  *)
+(* "r" = \r) BEFORE the escapes are decoded, so the setting can only touch  *)
+(* characters that are line breaks of the template source - never a         *)
+(* character that an escape sequence denotes: a literal without a raw line  *)
+(* break denotes the same value under every newline_sequence                *)
+(* (C14_EscapesIgnoreNewlineSequence).                                      *)
 (***************************************************************************)
 EXTENDS Naturals, Sequences, FiniteSets, TLC, Json, IOUtils
 
 CONSTANTS Alphabet,   \* characters (numbers) or class symbols (strings) spellings are built from
           MaxLen,     \* longest generated spelling
-          FromFile    \* TRUE: spellings are read from IOEnv.SPELLINGS_FILE instead of generated
+          FromFile,   \* TRUE: spellings are read from IOEnv.SPELLINGS_FILE instead of generated
+          NormalizeFirst  \* TRUE (the lexer): raw line breaks are replaced before escape decoding;
+                          \* FALSE: line feeds are replaced after decoding (must violate: vacuity guard)
 
 VARIABLES src,    \* the spelling, a sequence of 1-character strings / class symbols
           phase,  \* "grow" | "lex" | "done"
@@ -273,6 +282,7 @@ C14_PyIntsAreIntegers ==
 (*   x u  the letters x u               g  a letter with no escape meaning  *)
 (*   o0 o7  the octal digits 0 and 7    d9 the digit 9                      *)
 (*   HH two hex digits, neither octal, the first not an escape letter       *)
+(*   CR (internal) a raw carriage return written by _normalize_newlines     *)
 (*   NA a non-ASCII character           NX (internal) the two hex digits    *)
 (*                                         backslashreplace writes for NA   *)
 Quote    == {"q", "d"}
@@ -321,6 +331,7 @@ Ats(t, i, n) == [k \in 1..n |-> t[i + k - 1].at]
 RECURSIVE Units(_, _, _)
 Units(t, i, to) ==
     IF i > to THEN <<>>
+    ELSE IF C(t, i) = "CR" THEN <<[k |-> "ctl", name |-> "CR"]>> \o Units(t, i + 1, to)
     ELSE IF C(t, i) # "bs" THEN <<[k |-> "src", at |-> t[i].at]>> \o Units(t, i + 1, to)
     ELSE LET c == IF i + 1 <= to THEN C(t, i + 1) ELSE END
          IN CASE c = END -> <<[k |-> "error"]>>
@@ -338,6 +349,8 @@ Units(t, i, to) ==
                        ELSE IF w = 0 \/ i + 1 + w > to THEN <<[k |-> "error"]>>
                        ELSE <<[k |-> "hex", ats |-> Ats(t, i + 2, w)]>> \o Units(t, i + 2 + w, to)
               [] c = "NA" -> <<[k |-> "undetermined"]>>                             \* backslash + non-ASCII
+              [] c = "CR" -> <<[k |-> "src", at |-> t[i].at], [k |-> "ctl", name |-> "CR"]>>
+                              \o Units(t, i + 2, to)                               \* unknown escape, as written
               [] OTHER -> <<[k |-> "src", at |-> t[i].at], [k |-> "src", at |-> t[i + 1].at]>>
                               \o Units(t, i + 2, to)                               \* unknown escapes stay as written
 
@@ -356,8 +369,40 @@ Encode(t) ==
 Normal(us) == [k \in 1..Len(us) |->
                  IF us[k].k = "hex" /\ Len(us[k].ats) = 1 /\ \E j \in 1..Len(src) : src[j] = "NA" /\ us[k].ats[1] = j
                  THEN [k |-> "src", at |-> us[k].ats[1]] ELSE us[k]]
-PipeUnits(s, from, to) ==
-    LET e == Encode(SubSeq(Tag(s), from, to)) IN Normal(Units(e, 1, Len(e)))
+
+(* newline_sequence.  Lexer.wrap: _normalize_newlines(body) comes first - every raw   *)
+(* line break of the body (the tokenizer has folded them all to a line feed) is       *)
+(* replaced by the configured sequence - then encode / decode.                        *)
+NewlineSeqs == {"n", "rn", "r"}
+NlSyms(nl) == CASE nl = "n" -> <<"LF">> [] nl = "rn" -> <<"CR", "LF">> [] nl = "r" -> <<"CR">>
+RECURSIVE NormalizeBreaks(_, _)
+NormalizeBreaks(t, nl) ==
+    IF t = <<>> THEN <<>>
+    ELSE (IF Head(t).c = "LF" THEN [j \in 1..Len(NlSyms(nl)) |-> [c |-> NlSyms(nl)[j], at |-> Head(t).at]]
+          ELSE <<Head(t)>>) \o NormalizeBreaks(Tail(t), nl)
+
+\* (only the vacuity guard uses this: the replacement done on the DECODED value, where it
+\* cannot tell a raw line break from a line feed that an escape sequence denotes)
+NlUnits(nl) == CASE nl = "n" -> <<[k |-> "ctl", name |-> "LF"]>>
+                 [] nl = "rn" -> <<[k |-> "ctl", name |-> "CR"], [k |-> "ctl", name |-> "LF"]>>
+                 [] nl = "r" -> <<[k |-> "ctl", name |-> "CR"]>>
+IsLfUnit(u) == (u.k = "ctl" /\ u.name = "LF") \/ (u.k = "src" /\ src[u.at] = "LF")
+RECURSIVE ReplaceLf(_, _)
+ReplaceLf(us, nl) ==
+    IF us = <<>> THEN <<>>
+    ELSE (IF IsLfUnit(Head(us)) THEN NlUnits(nl) ELSE <<Head(us)>>) \o ReplaceLf(Tail(us), nl)
+
+PipeUnitsNl(s, from, to, nl) ==
+    IF NormalizeFirst
+    THEN LET e == Encode(NormalizeBreaks(SubSeq(Tag(s), from, to), nl)) IN Normal(Units(e, 1, Len(e)))
+    ELSE LET e == Encode(SubSeq(Tag(s), from, to)) IN ReplaceLf(Normal(Units(e, 1, Len(e))), nl)
+PipeUnits(s, from, to) == PipeUnitsNl(s, from, to, "n")
+
+\* a raw line break inside the quotes is template syntax only (no Python spelling has one,
+\* except backslash-newline), and it is the one thing newline_sequence is documented to
+\* change: such spellings are judged under the default newline_sequence only
+NoRawBreak(s) == \A j \in 1..Len(s) : s[j] # "LF"
+JudgedUnder(s) == IF NoRawBreak(s) THEN <<"n", "rn", "r">> ELSE <<"n">>
 
 Bad(us) == \E k \in 1..Len(us) : us[k].k \in {"error", "undetermined"}
 Verdict(us) == IF \E k \in 1..Len(us) : us[k].k = "undetermined" THEN "undetermined"
@@ -397,7 +442,8 @@ StrReport ==
     /\ phase' = "reported"
     /\ PrintT(ToJson([s |-> src, toks |-> toks,
                       verdict |-> IF TripleQuote(src, toks) THEN "undetermined" ELSE Verdict(Concat(src, toks)),
-                      units |-> IF Bad(Concat(src, toks)) THEN <<>> ELSE Concat(src, toks)]))
+                      units |-> IF Bad(Concat(src, toks)) THEN <<>> ELSE Concat(src, toks),
+                      nls |-> JudgedUnder(src)]))
     /\ UNCHANGED <<src, pos, toks>>
 
 StrNext ==
@@ -413,6 +459,13 @@ C14_PipelineIsPythonDecoding ==
             LET py == PyUnits(src, toks[k].from + 1, toks[k].to - 2)
                 pp == PipeUnits(src, toks[k].from + 1, toks[k].to - 2)
             IN Verdict(py) = "ok" => pp = py
+\* newline_sequence is about the line breaks of the template source: a literal without a raw
+\* line break denotes the same value under every newline_sequence (in particular a line feed
+\* written as \n, \x0a, \12 stays a line feed)
+C14_EscapesIgnoreNewlineSequence ==
+    phase = "done" /\ NoRawBreak(src) =>
+        \A k \in 1..Len(toks) : \A nl \in NewlineSeqs :
+            PipeUnitsNl(src, toks[k].from + 1, toks[k].to - 2, nl) = PipeUnits(src, toks[k].from + 1, toks[k].to - 2)
 \* ... and where Python rejects an escape the pipeline does not invent a value
 C14_PipelineRejectsWhatPythonRejects ==
     phase = "done" =>
